@@ -224,6 +224,14 @@ pub fn record(pool_path: &str, w: &mut dyn Write, seed: u64, scale: usize) {
             emit(format!("outlier_ensemble_min#{i}"), dg(guard(|| mpt.ensemble_min(2..=6)), |d, v| { for x in v { d.f(*x); } }), json!({}));
             emit(format!("outlier_ensemble_max#{i}"), dg(guard(|| pts[..].ensemble_max(2..=6)), |d, v| { for x in v { d.f(*x); } }), json!({}));
             emit(format!("outlier_prepared#{i}"), dg(guard(|| { let pd = mpt.prepared_detector(); (pd.outliers(4), pd.outliers(7)) }), |d, (a, b)| { for x in a.iter().chain(b.iter()) { d.f(*x); } }), json!({}));
+            // a PreparedDetector is shared between calls: what it answers for k must not depend on which other k it was asked
+            // before (same key = same input = same digest, whatever the history of the detector)
+            for kk in [3usize, 5] {
+                emit(format!("outliers_k{kk}#{i}"), dg(guard(|| mpt.outliers(kk)), |d, v| { for x in v { d.f(*x); } }), json!({}));
+                emit(format!("outliers_k{kk}#{i}"), dg(guard(|| { let pd = mpt.prepared_detector(); let _ = pd.outliers(kk + 4); pd.outliers(kk) }), |d, v| { for x in v { d.f(*x); } }), json!({}));
+                emit(format!("outliers_k{kk}#{i}"), dg(guard(|| { let pd = mpt.prepared_detector(); for j in (kk + 1..=9).rev() { let _ = pd.outliers(j); } let _ = pd.outliers(2); pd.outliers(kk) }), |d, v| { for x in v { d.f(*x); } }), json!({}));
+                emit(format!("outliers_k{kk}#{i}"), dg(guard(|| { let pd = pts[..].prepared_detector(); let a = pd.outliers(kk); let _ = pd.outliers(8); let b = pd.outliers(kk); if a == b { a } else { vec![] } }), |d, v| { for x in v { d.f(*x); } }), json!({}));
+            }
             // points with many exact distance ties (mirror-symmetric lattice sets)
             let sym: Vec<Point<f64>> = (0..npts / 2).flat_map(|_| { let (x, y) = (rng.gen_range(1..10) as f64, rng.gen_range(0..20) as f64 / 2.0); [Point::new(10.0 - x, y), Point::new(10.0 + x, y)] }).collect();
             let msym = MultiPoint::new(sym.clone());
